@@ -518,6 +518,7 @@ namespace pbt
     int budget_ms = -1;
     std::string out, replay_dir = ".", replay;
     bool force_crash = false;
+    std::vector<std::string> known_sigs;
     for (int i = 1; i < argc; ++i)
     {
       std::string a = argv[i];
@@ -539,6 +540,7 @@ namespace pbt
       else if (a == "--replay") replay = nxt();
       else if (a == "--budget-ms") budget_ms = atoi(nxt().c_str());
       else if (a == "--crash-violation") force_crash = true;
+      else if (a == "--known") known_sigs.push_back(nxt()); // substring of a failure message that identifies a listed known finding
       else if (a == "--excl")
       {
         std::istringstream is(nxt());
@@ -623,6 +625,18 @@ namespace pbt
       }
       Outcome o = run_forked(tape, fn, opt, budget_ms);
       bool fail = o.kind == Kind::VIOLATION || (o.kind == Kind::CRASH && cfg.crash_is_violation) || (o.kind == Kind::TIMEOUT && cfg.timeout_is_violation);
+      if (fail && !known_sigs.empty())
+      { // a failure at the call site of a listed known finding is excluded (and counted), so that the search continues behind it
+        const std::string &msg = o.kind == Kind::VIOLATION ? o.res.message : o.crash_info;
+        for (auto &k : known_sigs)
+          if (msg.find(k) != std::string::npos)
+          {
+            fail = false;
+            o.kind = Kind::DISCARD;
+            o.res.discard_reason = "excluded: fails at the call site of a listed known finding (" + k.substr(0, 60) + ")";
+            break;
+          }
+      }
       if (!shrinking)
       {
         account(stats, o);
